@@ -47,7 +47,8 @@ def finalize(agg, tier):
     out = []
     for name in ("tapes_enumerated", "ranges_decided", "restart_checked", "bit_sizes_decided", "shuffle_orders_decided",
                  "sample_decided", "consumer_keys", "consumer_rejections_seen", "hook_random_range_calls", "hook_random_calls",
-                 "long_rejection_chains_checked", "large_range_probes"):
+                 "long_rejection_chains_checked", "large_range_probes", "dsa_generate_entropy_amount:1024/160",
+                 "dsa_generate_entropy_amount:2048/224", "dsa_generate_entropy_amount:2048/256", "dsa_generate_entropy_amount:3072/256"):
         if not c.get(name):
             out.append("deciding counter %s is zero" % name)
     return out
@@ -441,9 +442,16 @@ def w_consumers(spec, ctx, entropy):
         from .fixtures import DSA_DOMAINS
         p, q, g = DSA_DOMAINS[round_ % len(DSA_DOMAINS)]
         seed = rng.getrandbits(32)
-        k1 = DSA.generate(p.bit_length(), randfunc=fresh_tape(b"", seed), domain=(p, q, g))
+        tg = fresh_tape(b"", seed)
+        k1 = DSA.generate(p.bit_length(), randfunc=tg, domain=(p, q, g))
         k2 = DSA.generate(p.bit_length(), randfunc=fresh_tape(b"", seed), domain=(p, q, g))
         ctx.case(("DSA.generate", p.bit_length(), q.bit_length()))
+        # x = (c mod (q-1)) + 1 is not a rejection sampler: FIPS 186-4 B.1.1 bounds its bias by 2^-64 by drawing N + 64 bits
+        # for c.  Fewer bits drawn = a larger modulo bias than the method the library documents allows.
+        ctx.check(tg.consumed * 8 >= q.bit_length() + 64, "consumer:DSA.generate:fewer-than-N+64-bits-drawn",
+                  "DSA.generate derived the private key from fewer than N + 64 random bits (FIPS 186-4 B.1.1): modulo bias above 2^-64",
+                  lambda: {"L": p.bit_length(), "N": q.bit_length(), "bytes_drawn": tg.consumed, "requests": tg.log[:8]})
+        ctx.count("dsa_generate_entropy_amount:%d/%d" % (p.bit_length(), q.bit_length()))
         ctx.check(int(k1.x) == int(k2.x) and 0 < int(k1.x) < q and pow(g, int(k1.x), p) == int(k1.y),
                   "consumer:DSA.generate", "DSA key not deterministic under a tape / x out of range / y != g^x",
                   {"x": hex(int(k1.x))})
